@@ -198,3 +198,16 @@ func (c *zzBytesCodec) Unmarshal(data []byte, v interface{}) error {
 	}
 	return errZZNotBytes
 }
+
+// zzResponseEnc builds a response frame with the given header encoder (nil: built-in default).
+func zzResponseEnc(enc Encoder, seq uint64, errText string, reply []byte) []byte {
+	if enc == nil {
+		return zzResponse(seq, errText, reply)
+	}
+	res := enc.NewResponse()
+	res.SetSeq(seq)
+	res.SetError(errText)
+	res.SetReply(reply)
+	b, _ := enc.NewCodec().Marshal(nil, res)
+	return b
+}
